@@ -30,6 +30,12 @@ FindFrom(s, pat, i) ==
     ELSE IF StartsWithAt(s, i, pat) THEN i
     ELSE FindFrom(s, pat, i + 1)
 
+\* decimal spelling of an integer as symbols
+DigitSyms == <<"0","1","2","3","4","5","6","7","8","9">>
+RECURSIVE NatSyms(_)
+NatSyms(n) == IF n < 10 THEN <<DigitSyms[n + 1]>> ELSE NatSyms(n \div 10) \o <<DigitSyms[(n % 10) + 1]>>
+IntSyms(n) == IF n < 0 THEN <<"DASH">> \o NatSyms(0 - n) ELSE NatSyms(n)
+
 Before(s, i) == SubSeq(s, 1, i - 1)
 From(s, i)   == SubSeq(s, i, Len(s))
 =============================================================================
